@@ -11,6 +11,7 @@ mod c10;
 mod c13l;
 mod c14;
 mod c15;
+mod c18s;
 mod hr;
 mod hsearch;
 mod mem;
@@ -156,6 +157,7 @@ fn main() {
         "c10_static" => c10::run(&args),
         "c13_layouts" => c13l::run(&args),
         "c14_attrib" => c14::run(&args),
+        "c18_seq" => c18s::run(&args),
         "c15_lifecycle" => c15::lifecycle(&args),
         s => {
             eprintln!("unknown subcheck {s}");
